@@ -99,7 +99,7 @@ Theorem c07_rebound_correct : forall d p e execs row,
 Proof. exact rebound_correct. Qed.
 Print Assumptions c07_rebound_correct.
 
-(* MAIN (rendered literally), outside the two defective regions named by [literal_guard] *)
+(* MAIN (rendered literally), outside the defective region named by [literal_guard] *)
 Theorem c07_literal_correct_guarded : forall d p e vals row,
   consistent e = true -> wf e vals = true -> empty_ok d e vals = true -> literal_guard d e vals = true ->
   exists ts, compile_literal_stmt d p e vals = Ok ts /\
@@ -107,16 +107,9 @@ Theorem c07_literal_correct_guarded : forall d p e vals row,
 Proof. exact literal_correct_guarded. Qed.
 Print Assumptions c07_literal_correct_guarded.
 
-(* ... and inside them the code fails: tuple_(x, y).in_([]) with literal_binds on SQLite renders
-   "(x, y) IN (VALUES SELECT 1, 1 FROM (SELECT 1, 1) WHERE 1!=1)" which is not SQL, while the bound form is
-   FALSE; tuples for an untyped operand raise AttributeError, while the bound form works *)
-Theorem c07_literal_empty_tuple_refuted :
-  exists d e row,
-    consistent e = true /\ wf e [] = true /\ empty_ok d e [] = true /\ literal_guard d e [] = false /\
-    (exists x c', process (compile d PosBare e) [] [] false = Ok (x, c') /\ exec_sem row x = EOk TF) /\
-    exists ts, compile_literal_stmt d PosBare e [] = Ok ts /\ exec_literal row ts = EErr.
-Proof. exact literal_empty_tuple_refuted_ex. Qed.
-Print Assumptions c07_literal_empty_tuple_refuted.
+(* ... and inside it the code fails: tuples for an untyped operand raise AttributeError although the bound form
+   works.  (The second former region - tuple_(x, y).in_([]) with literal_binds on SQLite rendering
+   "VALUES SELECT .." - was repaired by a8e8272 and is now covered by the theorem above; see the Example.) *)
 Theorem c07_literal_nulltype_tuple_refuted :
   exists d e vals row,
     consistent e = true /\ wf e vals = true /\ literal_guard d e vals = false /\
@@ -124,6 +117,13 @@ Theorem c07_literal_nulltype_tuple_refuted :
     compile_literal_stmt d PosBare e vals = Raise AttributeError.
 Proof. exact literal_nulltype_tuple_refuted_ex. Qed.
 Print Assumptions c07_literal_nulltype_tuple_refuted.
+
+(* the repaired literal rendering of an empty tuple list on SQLite *)
+Example c07_literal_empty_tuple_fixed :
+  let e := in_impl (LTuple [1%N; 2%N]) (KTuple 2) OIn in
+  literal_guard sqlite_dialect e [] = true /\
+  exists ts, compile_literal_stmt sqlite_dialect PosBare e [] = Ok ts /\ exec_literal row_null ts = EOk TF.
+Proof. split; [reflexivity|]. exact (proj2 (proj2 (proj2 (proj2 (proj2 literal_empty_tuple_fixed))))). Qed.
 
 (* non-vacuity: hypotheses are satisfiable and the values are the interesting ones *)
 Definition ex_row : N -> sv := fun c => if N.eqb c 1 then SNull else SInt 5.
